@@ -298,6 +298,8 @@ class Interp:
                 return r
         if isinstance(f, (Sym, App)):
             return App(f, list(args), dict(kwargs))
+        if f is None or isinstance(f, (bool, int, str, list, tuple, dict)):
+            raise PyRaise("TypeError", f"'{type(f).__name__}' object is not callable")
         raise Unsupported(f"call of {type(f).__name__} at line {getattr(node, 'lineno', '?')}")
 
     def method(self, recv, m, args, kwargs, node):
